@@ -139,6 +139,7 @@ inductive Item (F : Type) where
   | tok (f : F) (n : Nat)              -- own token at x.f, n bytes long, always present
   | tokOpt (f : F) (n : Nat)           -- present iff x.f != NoPos
   | tokStr (f : F) (gs : List F)       -- token(s) at x.f, Σ len(x.g) bytes (literal text / operator spelling)
+  | tokIfUnset (f : F) (n : Nat) (g : F)   -- own token at x.f, present iff x.g == NoPos (the ")" of a call that is not command-style)
   | tokUnless (f : F) (n : Nat) (fl : F)   -- zero width when flag fl is set (implicit semicolon)
   | tokStrUnless (f : F) (g : F) (fl : F)  -- zero width when flag fl is set (implicit identifier)
   | start (f : F)                      -- x.f records where the node's first token starts
@@ -156,6 +157,7 @@ def kidSpan (k : Kid K F) : Nat × Nat := (k.pos.getD 0, k.stop.getD 0)
 def itemSpans (vals : List (F × Nat)) (kids : List (Kid K F)) : Item F → List (Nat × Nat)
   | .tok f n => [(val vals f, val vals f + n)]
   | .tokOpt f n => if val vals f != 0 then [(val vals f, val vals f + n)] else []
+  | .tokIfUnset f n g => if val vals g != 0 then [] else [(val vals f, val vals f + n)]
   | .tokStr f gs => [(val vals f, gs.foldl (fun a g => a + val vals g) (val vals f))]
   | .tokUnless f n fl => [(val vals f, if val vals fl != 0 then val vals f else val vals f + n)]
   | .tokStrUnless f g fl => [(val vals f, if val vals fl != 0 then val vals f else val vals f + val vals g)]
@@ -189,6 +191,7 @@ def canonPos : List (Item F) → Body F
   | .child f :: _ => .ret (.childPos f)
   | .list1 f :: _ => .ret (.firstPos f)
   | .tokOpt f _ :: r => .ite (.posSet f) (.ret (.fld f)) (canonPos r)
+  | .tokIfUnset f _ g :: r => .ite (.posSet g) (canonPos r) (.ret (.fld f))
   | .stopOpt f :: r => .ite (.posSet f) (.ret (.fld f)) (canonPos r)
   | .childOpt f :: r => .ite (.notNil f) (.ret (.childPos f)) (canonPos r)
   | .list f :: r => .ite (.nonEmpty f) (.ret (.firstPos f)) (canonPos r)
@@ -206,11 +209,23 @@ def canonEndR : List (Item F) → Body F
   | .child f :: _ => .ret (.childEnd f)
   | .list1 f :: _ => .ret (.lastEnd f)
   | .tokOpt f n :: r => .ite (.posSet f) (.ret (.add (.fld f) n)) (canonEndR r)
+  | .tokIfUnset f n g :: r => .ite (.posSet g) (canonEndR r) (.ret (.add (.fld f) n))
   | .stopOpt f :: r => .ite (.posSet f) (.ret (.fld f)) (canonEndR r)
   | .childOpt f :: r => .ite (.notNil f) (.ret (.childEnd f)) (canonEndR r)
   | .list f :: r => .ite (.nonEmpty f) (.ret (.lastEnd f)) (canonEndR r)
 
 def canonEnd (items : List (Item F)) : Body F := canonEndR items.reverse
+
+/-- Remove tests whose outcome is already decided by an enclosing test of the same condition
+(`known`): `if c {A}; if c {B}; C` is `if c {A}; C`. -/
+def prune (known : List (Cond F × Bool)) : Body F → Body F
+  | .ret e => .ret e
+  | .opaque n => .opaque n
+  | .ite c t e =>
+    match known.lookup c with
+    | some true => prune known t
+    | some false => prune known e
+    | none => .ite c (prune ((c, true) :: known) t) (prune ((c, false) :: known) e)
 
 /-- The node supplies what the layout makes mandatory, and every child entry it uses has a
 defined span: single children present and non-nil, `list1` non-empty, no nil list entries. -/
